@@ -1,33 +1,34 @@
 /-!
 # C06 — white space and comments between tokens
 
-Model of `Lexer::read_input` (`feel-parser/src/lexer.rs:423-436`): before every token the
-lexer calls `consume_whitespace`, `consume_comment`, `consume_whitespace` — white space,
-*one* comment, white space.  Characters are code points (`Nat`).  Imports nothing.
+Model of `Lexer::read_input` (`feel-parser/src/lexer.rs:423-442`): before every token the
+lexer repeats `consume_whitespace; consume_comment` until the position no longer moves —
+any sequence of white space and comments is skipped.  Characters are code points (`Nat`).
+Imports nothing.
 -/
 
 namespace Dmn.GapLayout
 
-/-- lexer.rs:1010-1012 -/
+/-- lexer.rs:1018-1020 -/
 def isVerticalSpace (c : Nat) : Bool := 0x0A ≤ c && c ≤ 0x0D
 
-/-- lexer.rs:999-1006 -/
+/-- lexer.rs:1007-1014 -/
 def isWhitespace (c : Nat) : Bool :=
   isVerticalSpace c || c == 0x09 || c == 0x20 || c == 0x85 || c == 0xA0 || c == 0x1680 ||
     c == 0x180E || (0x2000 ≤ c && c ≤ 0x200B) || c == 0x2028 || c == 0x2029 || c == 0x202F ||
     c == 0x205F || c == 0x3000 || c == 0xFEFF
 
-/-- `consume_whitespace` (lexer.rs:440-448). -/
+/-- `consume_whitespace` (lexer.rs:446-454). -/
 def skipWs : List Nat → List Nat
   | [] => []
   | c :: cs => if isWhitespace c then skipWs cs else c :: cs
 
-/-- Inside `// …`: up to, not including, the line feed (lexer.rs:455-463). -/
+/-- Inside `// …`: up to, not including, the line feed (lexer.rs:461-469). -/
 def skipLine : List Nat → List Nat
   | [] => []
   | c :: cs => if c == 0x0A then c :: cs else skipLine cs
 
-/-- Inside `/* …`: through the first `*/` (lexer.rs:464-475). -/
+/-- Inside `/* …`: through the first `*/` (lexer.rs:470-481). -/
 def skipBlock : List Nat → List Nat
   | [] => []
   | c :: cs =>
@@ -37,7 +38,7 @@ def skipBlock : List Nat → List Nat
       | [] => []
     else skipBlock cs
 
-/-- `consume_comment` (lexer.rs:452-478): one comment, if one starts here. -/
+/-- `consume_comment` (lexer.rs:458-484): one comment, if one starts here. -/
 def skipComment : List Nat → List Nat
   | [] => []
   | c :: cs =>
@@ -47,8 +48,15 @@ def skipComment : List Nat → List Nat
       | [] => c :: cs
     else c :: cs
 
-/-- `read_input` up to the point where the buffer is filled (lexer.rs:424-426). -/
-def skipGap (cs : List Nat) : List Nat := skipWs (skipComment (skipWs cs))
+/-- One round of the loop of `read_input` (lexer.rs:427-428). -/
+def skipStep (cs : List Nat) : List Nat := skipComment (skipWs cs)
+
+/-- `read_input` up to the point where the buffer is filled (lexer.rs:424-432): rounds of
+`skipStep` for as long as one moves the position (a round never moves it backwards, so
+"moved" is "fewer characters left"). -/
+def skipGap (cs : List Nat) : List Nat :=
+  if _h : (skipStep cs).length < cs.length then skipGap (skipStep cs) else cs
+termination_by cs.length
 
 /-! ## Layouts the property speaks of -/
 
@@ -77,22 +85,27 @@ def Comment.text : Comment → List Nat
   | .line body => 0x2F :: 0x2F :: (body ++ [0x0A])
   | .block body => 0x2F :: 0x2A :: (body ++ [0x2A, 0x2F])
 
-/-- What may stand between two tokens: white space, optionally one comment in it. -/
-structure Gap where
-  before : List Nat
-  comment : Option Comment
-  after : List Nat
+/-- What may stand between two tokens: runs of white space and comments, in any number and
+order. -/
+inductive Piece where
+  | ws (cs : List Nat)
+  | comment (c : Comment)
 
-def Gap.ok (g : Gap) : Bool :=
-  allWs g.before && allWs g.after &&
-    (match g.comment with
-      | some c => c.ok
-      | none => true)
+def Piece.ok : Piece → Bool
+  | .ws cs => allWs cs
+  | .comment c => c.ok
 
-def Gap.text (g : Gap) : List Nat :=
-  g.before ++ (match g.comment with
-    | some c => c.text
-    | none => []) ++ g.after
+def Piece.text : Piece → List Nat
+  | .ws cs => cs
+  | .comment c => c.text
+
+abbrev Gap := List Piece
+
+def gapOk (g : Gap) : Bool := g.all Piece.ok
+
+def gapText : Gap → List Nat
+  | [] => []
+  | p :: ps => p.text ++ gapText ps
 
 /-- The next token does not begin with white space or a comment. -/
 def startsToken : List Nat → Bool
